@@ -14,7 +14,7 @@ PROP_ID = "C14"
 LEVEL = "exploration"
 RULE = (
     "cases = (tree <= 20 nodes of AnyNode where each node carries the searched attributes 'name'/'kind' only with some "
-    "probability (values include strings with '%', a wildcard object equal to everything and one shared NaN object, which equals nothing), start node, stop set, filtered-out set, maxlevel, attribute name and value); for every case all 25 "
+    "probability (values include strings with '%', a wildcard object equal to everything, one shared NaN object, which equals nothing, and records whose __eq__ raises AttributeError for foreign operands), start node, stop set, filtered-out set, maxlevel, attribute name and value); for every case all 25 "
     "(mincount, maxcount) combinations from {None, 0, c-1, c, c+1} around the real match count c are executed for findall and "
     "findall_by_attr, in anytree.search and anytree.cachedsearch, keyword and positional forms, plus find/find_by_attr. "
     "Shapes <= 5 nodes are enumerated with systematic attribute patterns; the rest is Hypothesis-generated. "
@@ -26,7 +26,7 @@ ASSUMPTIONS = [
     "CountError message is only required to contain the match count and the violated bound as decimal numbers before the result repr",
 ]
 # '%' in values ends up in node reprs and so in CountError messages; {"anyeq": 1} is a wildcard value (equal to everything, like unittest.mock.ANY)
-VALUES = [1, "1", 2, "b", None, {"list": [1]}, {"tuple": [1]}, {"list": []}, "50%", "%d %s", "%%", {"anyeq": 1}, {"nan": 1}]
+VALUES = [1, "1", 2, "b", None, {"list": [1]}, {"tuple": [1]}, {"list": []}, "50%", "%d %s", "%%", {"anyeq": 1}, {"nan": 1}, {"fragile": 1}, {"fragile": 2}]
 NAN = float("nan")  # ONE object, stored on nodes and used as search value: equal to nothing, not even to itself
 ATTR_NAMES = ["name", "kind", "parent.name", "root.kind", "a.b"]
 # attributes that exist without living in the instance dict: read-only node properties and a class-level default
@@ -40,8 +40,28 @@ def val(spec):
             return AnyEq()
         if "nan" in spec:
             return NAN
+        if "fragile" in spec:
+            return FragileEq(spec["fragile"])
         return list(spec["list"]) if "list" in spec else tuple(spec["tuple"])
     return spec
+
+
+class FragileEq(object):
+    """A record whose __eq__ assumes its own kind on the other side: comparing it with None or a string raises AttributeError."""
+
+    __hash__ = None
+
+    def __init__(self, x):
+        self.x = x
+
+    def __eq__(self, other):
+        return self.x == other.x
+
+    def __ne__(self, other):
+        return self.x != other.x
+
+    def __repr__(self):
+        return "FragileEq(%r)" % (self.x,)
 
 
 class AnyEq(object):
@@ -191,6 +211,32 @@ def _once(case, acc, tree, labels):
         if not same_outcome(out, other):
             raise Violation("find-variants", "find variants disagree")
 
+    # callbacks that depend on each other ('the first N matches': filter_ records what it accepts, stop prunes once N are
+    # recorded): findall is DEFINED as what PreOrderIter yields for the same arguments, so it must interleave them alike
+    def first_n(limit):
+        accepted = []
+
+        def take(node):
+            if id(node) in hide_ids:
+                return False
+            accepted.append(node)
+            return True
+
+        def enough(node):
+            return len(accepted) >= limit or id(node) in stop_ids
+
+        return take, enough
+
+    for limit in (1, 2, 3):
+        f1, s1 = first_n(limit)
+        want = tuple(anytree.PreOrderIter(start, filter_=f1, stop=s1, maxlevel=maxlevel))
+        for func in (search.findall, cachedsearch.findall):
+            f2, s2 = first_n(limit)
+            got = func(start, filter_=f2, stop=s2, maxlevel=maxlevel)
+            if not refs.same_seq(got, want):
+                raise Violation("findall-vs-preorderiter", "with callbacks that depend on each other (first %d matches) %s.findall returns %s, PreOrderIter yields %s" % (limit, func.__module__, labels.labels(got), labels.labels(want)))
+    acc.tag("interdependent_callback_comparisons", 6)
+
     # by attribute
     name, value = case["by"]["name"], val(case["by"]["value"])
     region = refs.restricted(refs.preorder(start), refs.admitted_ids(start, set(), maxlevel), set())
@@ -202,7 +248,11 @@ def _once(case, acc, tree, labels):
         except AttributeError:
             lacking += 1
             continue
-        if have == value:
+        try:
+            same = have == value
+        except AttributeError:
+            continue  # 'never an AttributeError': a comparison that cannot be made is no match
+        if same:
             exp_attr.append(node)
     ca = len(exp_attr)
     abounds = [None, 0, ca - 1, ca, ca + 1]
